@@ -98,6 +98,20 @@ SPECS = [
          ],
          raises={'*': {'ensures': ["raised('e7')"]}},
          serves=PROP + ["C02"]),
+    dict(id='S-Replace-omit-expr',
+         # tal:replace decides first whether the element is rendered at all; the tal:omit-tag expression
+         # belongs to the element's own tags: it is evaluated (once) only when the element is kept
+         # (`default`), after the replace expression, and never for an element that is replaced
+         text='A<p tal:replace="e7" tal:omit-tag="e8">%s</p>B' % H1,
+         ensures=[
+             "evals(7) == 1",
+             "val(7) is DEFAULT() or (evals(8) == 0 and holes(1) == 0)",
+             "val(7) is not DEFAULT() or (evals(8) == 1 and holes(1) == 1 and trace('e7', 'e8', 'h1'))",
+             "val(7) is not DEFAULT() or not bool(val(8)) or S() == S0() + 'A' + out(1) + 'B'",
+             "val(7) is not DEFAULT() or bool(val(8)) or S() == S0() + 'A<p>' + out(1) + '</p>B'",
+         ],
+         raises={'*': {'ensures': ["raised('e7') or (val(7) is DEFAULT() and (raised('e8') or raised('h1')))"]}},
+         serves=PROP + ["C04"]),
     dict(id='S-Structure', text='A<p tal:content="structure e7">x</p>B',
          ensures=[
              "evals(7) == 1",
